@@ -27,6 +27,7 @@ def alphabet(nports):
     a = ["start", "stop", "ctx_ok", "ctx_exc", "send_then_stop", "send_yield_stop", "stop_from_callback", "start_cancelled_stop"]
     for i in range(nports):
         a += [f"send{i}", f"occupy{i}", f"release{i}"]
+    a.append("swap_port")
     return a
 
 
@@ -50,6 +51,9 @@ def legal(history, nports):
             if not running:
                 return False
             running = False
+        elif a == "swap_port":
+            if running or occ:
+                return False
         elif a.startswith("occupy"):
             i = int(a[6:])
             if running or i in occ:
@@ -241,6 +245,7 @@ class C17(Prop):
 
         try:
             for n, a in enumerate(history):
+                env.idle((0, 0, 0, 0.5, 3, 40, 700, 86400)[(n * 3 + len(history) + nports) % 8])      # real time passes between the calls
                 acc.ev()
                 acc.count(f"action_{a.rstrip('0123456789')}")
                 if a in ("start", "ctx_ok", "ctx_exc"):
@@ -353,6 +358,13 @@ class C17(Prop):
                     else:
                         must_not_deliver[tag] = n
                         trace.append(f"send{idx} stopped")
+                elif a == "swap_port":
+                    # the caller keeps the list it configured the bridge with and, while the bridge is stopped, replaces one port
+                    # (the device moved to the new firmware's port): from now on that is the configuration
+                    idx = (n + len(history)) % nports
+                    ports[idx] = self.rig.free_ports(1)[0]
+                    trace.append(f"swap_port #{idx}")
+                    acc.count("configured_ports_replaced_while_stopped")
                 elif a.startswith("occupy"):
                     idx = int(a[6:])
                     s = socket.socket(socket.AF_INET, socket.SOCK_DGRAM)
